@@ -134,6 +134,7 @@ with prelude.NoTracing():
         (("CO", "H"), ("HCO",), 5.0, 300.0, 100),  # entry 0 with another lower bound only
         (("H", "H+"), ("H2+",), -1.0, -1.0, 100),  # two reactants with the same bare formula ...
         (("H+", "H"), ("H2+",), -1.0, -1.0, 100),  # ... listed in the other order
+        (("CO", "H"), ("HCO",), 10.0, 300.0, 999),  # entry 0 without type information (as read from a KROME file): matches any type
     ]
     POOL = [Reaction(list(r), list(p), lo, hi, reaction_type=ReactionType(t)) for r, p, lo, hi, t in POOL_DESC]
 
@@ -153,7 +154,17 @@ def _key(desc, mode):
     base = (tuple(sorted(_canon(x) for x in r)), tuple(sorted(_canon(x) for x in p)))
     if mode == "brief":
         return base
+    if mode == "typeless":
+        return base + (lo, hi)
     return base + (lo, hi, t)
+
+
+def _eqv(a, b, mode):
+    """equivalence of two pool entries in a mode; in the default mode a reaction without type information
+    (type 999) matches every type -- symmetric by definition"""
+    if mode is None:
+        return _key(a, "typeless") == _key(b, "typeless") and (a[4] == b[4] or 999 in (a[4], b[4]))
+    return _key(a, mode) == _key(b, mode)
 
 
 def _real(sel, mode):
@@ -167,16 +178,25 @@ def _real_untraced(sel, mode):
     n.reaction_list = [POOL[i] for i in sel]
     n._reactants, n._products = set(), set()
     d, idx, first = n.find_duplicate_reaction(mode)
-    keys = [_key(POOL_DESC[i], mode) for i in sel]
-    edup = [i for i in range(len(keys)) if any(keys[j] == keys[i] for j in range(i))]
-    efirst = [i for i in range(len(keys)) if not any(keys[j] == keys[i] for j in range(i)) and any(keys[j] == keys[i] for j in range(i + 1, len(keys)))]
+    # the documented scan: a reaction is a duplicate of the first *kept* reaction it is equivalent to
+    descs = [POOL_DESC[i] for i in sel]
+    kept, edup, efirst = [], [], []
+    for i, d_ in enumerate(descs):
+        j = next((k for k in kept if _eqv(descs[k], d_, mode)), None)
+        if j is None:
+            kept.append(i)
+        else:
+            edup.append(i)
+            if j not in efirst:
+                efirst.append(j)
+    efirst.sort()
     return idx == edup and [r is n.reaction_list[i] for r, i in zip(first, efirst)] == [True] * len(efirst) and len(first) == len(efirst)
 
 
 def real_default(sel: List[int]) -> bool:
     """
     pre: len(sel) <= 3
-    pre: all(0 <= x < 16 for x in sel)
+    pre: all(0 <= x < 17 for x in sel)
     post: _ == True
     """
     return _real(sel, None)
@@ -185,7 +205,7 @@ def real_default(sel: List[int]) -> bool:
 def real_brief(sel: List[int]) -> bool:
     """
     pre: len(sel) <= 3
-    pre: all(0 <= x < 16 for x in sel)
+    pre: all(0 <= x < 17 for x in sel)
     post: _ == True
     """
     return _real(sel, "brief")
@@ -194,7 +214,7 @@ def real_brief(sel: List[int]) -> bool:
 def real_minimal(sel: List[int]) -> bool:
     """
     pre: len(sel) <= 3
-    pre: all(0 <= x < 16 for x in sel)
+    pre: all(0 <= x < 17 for x in sel)
     post: _ == True
     """
     return _real(sel, "minimal")
@@ -203,7 +223,7 @@ def real_minimal(sel: List[int]) -> bool:
 def real_short(sel: List[int]) -> bool:
     """
     pre: len(sel) <= 3
-    pre: all(0 <= x < 16 for x in sel)
+    pre: all(0 <= x < 17 for x in sel)
     post: _ == True
     """
     return _real(sel, "short")
@@ -211,13 +231,13 @@ def real_short(sel: List[int]) -> bool:
 
 def eq_laws(i: int, j: int) -> bool:
     """
-    pre: 0 <= i < 16 and 0 <= j < 16
+    pre: 0 <= i < 17 and 0 <= j < 17
     post: _ == True
     """
     i, j = prelude.concrete(i), prelude.concrete(j)
     with prelude.NoTracing():
         a, b = POOL[i], POOL[j]
-        same = _key(POOL_DESC[i], None) == _key(POOL_DESC[j], None)
+        same = _eqv(POOL_DESC[i], POOL_DESC[j], None)
         return (a == a) and ((a == b) == (b == a)) and ((a == b) == same) and (not (a == b) or hash(a) == hash(b))
 
 
